@@ -49,6 +49,7 @@ type simCfg struct {
 	Successor   string `json:"successor"`   // C07: "same" | "other"
 	SlowHost    string `json:"slow_host"`   // a lagging replica ("" = none)
 	Chaos       string `json:"chaos"`       // C20: ill-formed coordination content / hostile environment applied after warm-up
+	MgrSwitch   bool   `json:"manager_switchover"` // manager_switchover: a manager that lost sight of the master and of the quorum steps down
 }
 
 type simProc struct {
@@ -131,6 +132,7 @@ func (s *sim) mkConfig(host string, port int) *config.Config {
 	c.OfflineModeEnableLag = 10 * time.Second
 	c.OfflineModeDisableLag = 5 * time.Second
 	c.DcsWaitTimeout = 10 * time.Second
+	c.ManagerSwitchover = s.cfg.MgrSwitch
 	c.ManagerElectionDelayAfterQuorumLoss = 30 * time.Second
 	c.ManagerLockAcquireDelayAfterQuorumLoss = 45 * time.Second
 	return c
@@ -568,7 +570,64 @@ func simRun(t *testing.T, out *verifh.Out, cfg simCfg, idx int) []string {
 	defer os.RemoveAll(dir)
 	g0 := runtime.NumGoroutine()
 	var line map[string]any
+	leftover := ""
+	func() {
+		// synctest panics when the bubble's main goroutine has returned and goroutines of the bubble are still blocked
+		// for ever: that is a goroutine leak of the daemon (every daemon was stopped and joined) — reported, not fatal
+		defer func() {
+			if r := recover(); r != nil {
+				leftover = fmt.Sprint(r)
+				if !strings.Contains(leftover, "blocked goroutines remain") {
+					panic(r)
+				}
+				leftover += " " + simLeakSites()
+			}
+		}()
+		simBubble(t, cfg, idx, dir, &line)
+	}()
+	time.Sleep(20 * time.Millisecond)
+	if line == nil {
+		t.Fatalf("simulation produced no record: %s", leftover)
+	}
+	line["goroutines_before"] = g0
+	line["goroutines_after"] = runtime.NumGoroutine()
+	line["leftover_goroutines"] = leftover
+	if cfg.CrashAfter >= 0 {
+		out.Line(line)
+	}
+	cl, _ := line["call_log"].([]string)
+	return cl
+}
+
+// simLeakSites names where the goroutines that are still blocked were created (from the full goroutine dump)
+func simLeakSites() string {
+	buf := make([]byte, 1<<20)
+	buf = buf[:runtime.Stack(buf, true)]
+	seen := map[string]int{}
+	for _, g := range strings.Split(string(buf), "\n\n") {
+		if !strings.Contains(g, "synctest bubble") || !strings.Contains(g, "(durable)") {
+			continue
+		}
+		if i := strings.LastIndex(g, "created by "); i >= 0 {
+			l := g[i+len("created by "):]
+			if j := strings.Index(l, " in goroutine"); j >= 0 {
+				l = l[:j]
+			}
+			seen[l]++
+		}
+	}
+	var out []string
+	for k, v := range seen {
+		out = append(out, fmt.Sprintf("%s x%d", k, v))
+	}
+	sort.Strings(out)
+	return strings.Join(out, "; ")
+}
+
+func simBubble(t *testing.T, cfg simCfg, idx int, dir string, lineOut *map[string]any) {
 	synctest.Test(t, func(t *testing.T) {
+		var line map[string]any
+		defer func() { *lineOut = line }()
 		s := &sim{t: t, cfg: cfg, W: fakes.NewWorld(), casc: map[string]string{}, procs: map[string]*simProc{},
 			dir: dir, dead: map[string]bool{}, calls: map[string]int{}}
 		s.W.Mute = true
@@ -770,14 +829,6 @@ func simRun(t *testing.T, out *verifh.Out, cfg simCfg, idx int) []string {
 			"samples": s.compress(), "keys": keys, "recovery": rec, "panics": panics, "foreign_acts": acts,
 			"crashed": s.crashed, "crash_call": s.crashCall, "crash_state": s.crashState, "health": health, "request_calls": s.requestCalls(), "call_log": s.callLog, "conns": conns, "env": s.envLog()}
 	})
-	time.Sleep(20 * time.Millisecond)
-	line["goroutines_before"] = g0
-	line["goroutines_after"] = runtime.NumGoroutine()
-	if cfg.CrashAfter >= 0 {
-		out.Line(line)
-	}
-	cl, _ := line["call_log"].([]string)
-	return cl
 }
 
 // crashStateLocked describes the world at the moment the manager dies (world lock held): is there a writable HA node
@@ -916,6 +967,7 @@ func simGrid(r *rand.Rand, n int) []simCfg {
 		c := simCfg{N: 2 + r.Intn(3), WaitCount: 1 + r.Intn(2), Failover: r.Intn(4) > 0, MasterFirst: r.Intn(2) == 0,
 			FailDelay: []int{0, 0, 10, 30}[r.Intn(4)], OffsetMs: r.Intn(5000), DurationS: []int{0, 3, 20, 90}[r.Intn(4)]}
 		c.Cascade = c.N >= 2 && r.Intn(4) == 0
+		c.MgrSwitch = r.Intn(3) == 0
 		if c.N >= 3 && r.Intn(2) == 0 {
 			c.SlowHost = fmt.Sprintf("h%d", 2+r.Intn(c.N-1))
 		}
@@ -1054,7 +1106,7 @@ func TestVerifC20(t *testing.T) {
 				continue
 			}
 			c := simCfg{N: 2 + r.Intn(3), WaitCount: 1 + r.Intn(2), Failover: r.Intn(4) > 0, MasterFirst: r.Intn(2) == 0, FailDelay: 0,
-				OffsetMs: r.Intn(3000), DurationS: 60, Fault: "none", Chaos: ch}
+				OffsetMs: r.Intn(3000), DurationS: 60, Fault: "none", Chaos: ch, MgrSwitch: r.Intn(3) == 0}
 			if rep%2 == 1 {
 				c.Fault = []string{"crash_mysql", "kill_mysync", "zk_lost", "isolate"}[r.Intn(4)]
 				c.Target = fmt.Sprintf("h%d", 1+r.Intn(c.N))
